@@ -447,7 +447,7 @@ func signalErrAfterSignal(e ssa.Value) bool {
 		return false
 	}
 	f := recvField(call.Common())
-	if f == nil || f.Name() != "term" {
+	if f == nil || nameOf(f) != "term" {
 		return false
 	}
 	for _, sc := range an.SelectGuards(call.Block()) {
@@ -681,4 +681,21 @@ func paramSources(v ssa.Value, root *ssa.Function, depth int) []valueIn {
 		return []valueIn{{v, callee}}
 	}
 	return out
+}
+
+
+// nameOf is the inventory name of a module entity (a consistently renamed
+// function, method or field keeps the name the rule tables know it by).
+func nameOf(o interface{ Name() string }) string {
+	switch x := o.(type) {
+	case *types.Var:
+		return an.CanonName(x)
+	case *types.Func:
+		return an.CanonName(x)
+	case *ssa.Function:
+		if f, ok := x.Object().(*types.Func); ok {
+			return an.CanonName(f)
+		}
+	}
+	return o.Name()
 }
